@@ -68,12 +68,36 @@ type rgen struct {
 	rng *rand.Rand
 }
 
-func (g *rgen) leafType() reflect.Type {
-	ts := []any{false, int(0), int8(0), int16(0), int32(0), int64(0), uint(0), uint8(0), uint16(0), uint32(0), uint64(0),
+func leafTypes() []any {
+	return []any{false, int(0), int8(0), int16(0), int32(0), int64(0), uint(0), uint8(0), uint16(0), uint32(0), uint64(0),
 		uintptr(0), float32(0), float64(0), complex64(0), complex128(0), "", MyStr(""), og.Bytes(""), og.ByteString(""),
 		MyInt(0), []byte(nil), MyBytes(nil), make(chan int), (func())(nil), unsafe.Pointer(nil), og.None{}, og.Class{}, (*big.Int)(nil),
 		og.Tuple(nil), og.Ref{}, og.Call{}, og.Dict{}, og.Dict{}, Inner{}, Outer{}, Tagged{}, ArrHolder{}, PtrChain{}, [2]byte{}, [0]byte{}, [2]MyByte{}, []MyByte(nil), NamedArr{}, MyByte(0), EmbPtr{}, EmbVal{}, TagInner{}}
+}
+
+func (g *rgen) leafType() reflect.Type {
+	ts := leafTypes()
 	return reflect.TypeOf(ts[g.rng.Intn(len(ts))])
+}
+
+// directedType: every leaf type inside every kind of typed container ([]T, [3]T, map[string]T, *T, []*T, struct{F T}), by index.
+func directedType(idx int64) reflect.Type {
+	ts := leafTypes()
+	t := reflect.TypeOf(ts[int(idx)%len(ts)])
+	switch (int(idx) / len(ts)) % 6 {
+	case 0:
+		return reflect.SliceOf(t)
+	case 1:
+		return reflect.ArrayOf(3, t)
+	case 2:
+		return reflect.MapOf(reflect.TypeOf(""), t)
+	case 3:
+		return reflect.PointerTo(t)
+	case 4:
+		return reflect.SliceOf(reflect.PointerTo(t))
+	default:
+		return reflect.StructOf([]reflect.StructField{{Name: "F0", Type: t}, {Name: "F1", Type: reflect.SliceOf(t)}})
+	}
 }
 
 var anyType = reflect.TypeOf((*any)(nil)).Elem()
@@ -384,6 +408,9 @@ func encrfCase(seed int64, proto int, su bool, k int) (out string) {
 	g := &rgen{rng: rand.New(rand.NewSource(seed))}
 	depth := 1 + g.rng.Intn(4)
 	t := g.genType(depth)
+	if seed < 0 { // directed: -seed-1 indexes (leaf type, container kind, repetition)
+		t, depth = directedType(-seed-1), 3
+	}
 	v, _ := g.fill(t, depth)
 	var arg any
 	if v.IsValid() && v.CanInterface() {
@@ -419,6 +446,9 @@ func encrCase(seed int64, proto int, su bool) (out string) {
 	g := &rgen{rng: rand.New(rand.NewSource(seed))}
 	depth := 1 + g.rng.Intn(4)
 	t := g.genType(depth)
+	if seed < 0 { // directed: -seed-1 indexes (leaf type, container kind, repetition)
+		t, depth = directedType(-seed-1), 3
+	}
 	v, desc := g.fill(t, depth)
 	var arg any
 	if v.IsValid() && v.CanInterface() {
